@@ -19,6 +19,7 @@ def crc_table():
 
 
 def run(prog, chk):
+    encode_table(prog, chk)
     chk.explanation = (
         "(R5) the base-32 encode table equals the RFC 4648 alphabet; the CRC table of crc32.c equals the table generated from polynomial "
         "0xEDB88320. (R6) one iteration of the decoder loop of KSI_base32Decode is evaluated for one representative of every character "
@@ -175,6 +176,69 @@ def run(prog, chk):
     cps = [n for b, i, n in ft.calls("memcpy")]
     okm = len(cps) == 1 and show(ft.deep(cps[0]["a"][0]), ft).replace(" ", "").endswith("+8)")
     chk.ob("C17.encode", "toBase32:imprint-at-8", okm, "the imprint is copied behind the 8-byte time", loc=ft.loc(), fn=ft)
+
+
+def encode_table(prog, chk):
+    """KSI_PublicationData_toBase32 evaluated over the 64-bit range of the publication time: the buffer handed to the base-32 encoder
+    is time (8 octets, big endian) || imprint || CRC-32 of both (4 octets, big endian), whatever helpers the stores go through."""
+    from ksirules.bufinterp import BufInterp
+    from ksirules.interp import TOP, Ptr, inline_model, succeed_model
+    chk.rule("C17.encode.table", "toBase32: octets handed to the encoder = big-endian 64-bit time || imprint || big-endian CRC (value table)", floor=8)
+    ft = prog.fn("KSI_PublicationData_toBase32", "publicationsfile.c")
+    dp, sp = ft.params[0]["n"], ft.params[1]["n"]
+    helpers = {f.name for f in prog.all_functions() if f.unit == "publicationsfile.c" and f.static and f.name not in ("generateNextTlv",)}
+    L = 33
+    CRC = 0xA1B2C3D4
+    for t in (0, 1, 0xff, 0x100, 1491977646, 0xffffffff, 1 << 32, (1 << 32) + 5, 0x0123456789abcdef, 1 << 63, (1 << 64) - 1):
+        seen = {}
+
+        def getimp(I, p, node, args):
+            I.write(p, lvalue_key(strip(node["a"][1])["e"], I.fn), Ptr("IMP"))
+            I.write(p, lvalue_key(strip(node["a"][2])["e"], I.fn), L)
+            return 0
+
+        def crc(I, p, node, args):
+            seen["crc"] = (I.as_off(args[0]), args[1], args[2])
+            seen["at_crc"] = [I.read(p, "BIN[%d]" % k) for k in range(8)]
+            return CRC
+
+        def enc(I, p, node, args):
+            o = I.as_off(args[0])
+            seen["enc"] = (o, args[1], args[2])
+            seen["buf"] = [I.read(p, "BIN[%d]" % k) for k in range(8 + L + 4)] if o is not None and o.base == "BIN" and o.off == 0 else None
+            I.write(p, lvalue_key(strip(node["a"][3])["e"], I.fn), Ptr("STR"))
+            return 0
+
+        def mcpy(I, p, node, args):
+            seen.setdefault("cpy", []).append((I.as_off(args[0]), args[1], args[2]))
+            return args[0]
+        ov = {"KSI_DataHash_getImprint": getimp, "KSI_crc32": crc, "KSI_base32Encode": enc, "memcpy": mcpy, "KSI_calloc": lambda I, p, n, a: Ptr("BIN"),
+              "KSI_malloc": lambda I, p, n, a: Ptr("BIN"), "KSI_Integer_getUInt64": lambda I, p, n, a: t if a[0] == Ptr("TIME") else TOP,
+              "KSI_free": lambda I, p, n, a: TOP}
+        inputs = {dp: Ptr("PD"), sp: Ptr("OUT"), "PD->ctx": Ptr("ctx"), "PD->imprint": Ptr("HASH"), "PD->time": Ptr("TIME")}
+        for k in range(8 + L + 4):
+            inputs["BIN[%d]" % k] = 0
+        I = BufInterp(ft, {"BIN": 8 + L + 4, "IMP": L}, inputs=inputs, call_model=inline_model(prog, helpers, fallback=succeed_model(prog, ov)), on_unknown="stop",
+                      prog=prog, loop_bound=12)
+        paths = I.run()
+        chk.paths += len(paths)
+        inst = "toBase32[time=%#x]" % t
+        if len(paths) != 1 or paths[0].undetermined:
+            raise AnalysisBroken("KSI_PublicationData_toBase32: evaluation not determined for %s: %s" % (inst, [q.undetermined[:1] for q in paths]))
+        q = paths[0]
+        want_time = [(t >> (8 * (7 - k))) & 0xff for k in range(8)]
+        want_crc = [(CRC >> (8 * (3 - k))) & 0xff for k in range(4)]
+        buf = seen.get("buf")
+        o, ln, zero = seen.get("crc", (None, None, None))
+        eo, eln, grp = seen.get("enc", (None, None, None))
+        cp = seen.get("cpy", [])
+        ok = q.ret == 0 and buf is not None and buf[:8] == want_time and buf[8 + L:] == want_crc and seen.get("at_crc") == want_time and \
+            o is not None and (o.base, o.off, ln) == ("BIN", 0, 8 + L) and (eln, grp) == (8 + L + 4, 6) and \
+            any(d is not None and s_ == Ptr("IMP") and (d.base, d.off, n) == ("BIN", 8, L) for d, s_, n in cp)
+        chk.ob("C17.encode.table", inst, ok,
+               "expected time octets %s, imprint copied to offset 8, CRC over octets 0..%d stored as %s, %d octets encoded in groups of 6; source: status %s, time octets %s, "
+               "CRC call %s, CRC octets %s, copies %s, encoder call %s" % (want_time, 8 + L - 1, want_crc, 8 + L + 4, q.ret, buf[:8] if buf else None, seen.get("crc"),
+                                                                         buf[8 + L:] if buf else None, cp, seen.get("enc")), loc=ft.loc(), fn=ft, nontrivial=t > 0xffffffff)
 
 
 def const_sum(fn, e, var):
